@@ -1,8 +1,11 @@
 ------------------------------ MODULE CoilTrace ------------------------------
-(* (1) api traces: every call on a real Driver (directly or through its control events) with the   *)
-(* commands that reached the platform driver and whether the call raised, must equal the model.  *)
-(* (2) device traces (kind "cmd"): commands observed at the platform driver while other devices   *)
-(* (ejectors, flippers, coil players, shows ...) actuate coils; only the envelope is judged.      *)
+(* (1) api traces: every call on a real Driver (directly or through its control events), every    *)
+(* hardware rule installed for it through the platform controller, every change of the placeholder *)
+(* behind its defaults, every pulse of the other coil on its power supply and every passage of     *)
+(* time, with the commands that reached the platform (driver object and rule interface) and        *)
+(* whether the call raised, must equal the model.                                                  *)
+(* (2) device traces (kind "cmd"): commands and rules observed at the platform while other devices *)
+(* (ejectors, flippers, coil players, shows ...) actuate coils; only the envelope is judged.       *)
 EXTENDS Coil, TraceIO
 VARIABLES tid, l
 tvars == <<vars, tid, l>>
@@ -10,19 +13,23 @@ TL == TraceLines[tid].ev
 TNONE == -1000
 TConfigs == {}
 TInit == /\ tid \in 1..Len(TraceLines) /\ l = 1 /\ cfg = TraceLines[tid].cfg /\ now = 1 /\ on = "off" /\ swOffAt = 0
-         /\ holdOffAt = 0 /\ out = <<>> /\ err = FALSE /\ nops = 0 /\ act = [op |-> "init"]
+         /\ holdOffAt = 0 /\ busy = 0 /\ pend = <<>> /\ out = <<>> /\ err = FALSE /\ nops = 0 /\ act = [op |-> "init"]
 Obs(e) == out' = e.cmds /\ err' = e.err
 Step(e) ==
-    \/ e.op = "pulse" /\ Pulse(e.ms, e.pp) /\ Obs(e)
-    \/ e.op = "enable" /\ Enable(e.ms, e.pp, e.hp) /\ Obs(e)
-    \/ e.op = "timed_enable" /\ TimedEnable(e.te, e.hp, e.ms, e.pp) /\ Obs(e)
+    \/ e.op = "pulse" /\ Pulse(e.ms, e.pp, e.mw) /\ Obs(e)
+    \/ e.op = "enable" /\ Enable(e.ms, e.pp, e.hp, e.mw) /\ Obs(e)
+    \/ e.op = "timed_enable" /\ TimedEnable(e.te, e.hp, e.ms, e.pp, e.mw) /\ Obs(e)
     \/ e.op = "disable" /\ Disable /\ Obs(e)
+    \/ e.op = "rule" /\ Rule(e.ms, e.pp, e.hp, e.hold) /\ Obs(e)
+    \/ e.op = "other" /\ OtherPulse(e.ms) /\ Obs(e)
+    \/ e.op = "setdef" /\ SetDef(e.w, e.v) /\ Obs(e)
     \/ e.op = "adv" /\ Adv(e.d) /\ Obs(e)
     \* a command of some other device: only the envelope applies (on' is irrelevant here)
     \/ /\ e.op = "cmd" /\ out' = <<e.c>> /\ on' = IF e.c[1] = "disable" THEN "off" ELSE "hold"
-       /\ UNCHANGED <<cfg, now, swOffAt, holdOffAt, err, nops>> /\ act' = [op |-> "cmd"]
+       /\ UNCHANGED <<cfg, now, swOffAt, holdOffAt, busy, pend, err, nops>> /\ act' = [op |-> "cmd"]
        /\ (e.c[1] = "disable" \/ (/\ e.c[2] >= 0 /\ (cfg.maxPulseMs = 0 \/ e.c[2] <= cfg.maxPulseMs)
                                   /\ e.c[3] >= 0 /\ e.c[3] <= PPLimit
+                                  /\ (e.c[1] = "rule" => e.c[4] >= 0 /\ e.c[4] <= HPLimit)
                                   /\ (e.c[1] \in {"enable", "timed_enable"} => e.c[4] >= 0 /\ (e.c[4] <= HPLimit \/ (e.c[2] = 0 /\ e.c[4] = e.c[3])))))
 TNext == l <= Len(TL) /\ Step(TL[l]) /\ l' = l + 1 /\ UNCHANGED tid
 TSpec == TInit /\ [][TNext]_tvars
